@@ -289,7 +289,9 @@ impl Port {
                 trace!("RS232 TX: {:02x}", c);
                 if self.loopback() {
                     debug!("RS232 TX: LOOPBACK: Finish transmit character {:02x}", c);
-                    self.rx_char(c);
+                    if self.rx_enabled() {
+                        self.rx_char(c);
+                    }
                 } else {
                     if keyboard && c == 0x02 {
                         self.stat |= STS_PER;
